@@ -735,6 +735,7 @@ impl<'a> GeneratorState<'a> {
                                 let v = self.compiler_state.get_variable(&variable);
                                 if v.var_type == VariableType::Short
                                     || v.var_type == VariableType::ShortPtr
+                                    || v.var_type == VariableType::CharPtrPtr
                                     || (v.var_type == VariableType::CharPtr && !eight_bits)
                                 {
                                     let left = self.generate_expr(lhs, pos, true, true)?;
